@@ -18,6 +18,11 @@ func processTemplateMsgs(node ast.Node) {
 	switch node := node.(type) {
 	case *ast.MsgNode:
 		soymsg.SetPlaceholdersAndID(node)
+		// a {call} inside the message may hold further messages in the content
+		// of its {param}s.
+		for _, child := range node.Body.Children() {
+			processTemplateMsgs(child)
+		}
 	default:
 		if parent, ok := node.(ast.ParentNode); ok {
 			for _, child := range parent.Children() {
